@@ -128,6 +128,11 @@ type Tr struct {
 	closuresSeen []*Closure
 	lockMode  bool
 	inlineBudget int
+	valOKText string
+	coverResult string
+	typeInvMode bool
+	callHints []Term
+	usedAssumed map[string]bool
 	firstIterHints []Term // replay preference: loop-head state of the first iteration
 	isRoot    func(fn *ssa.Function) bool // obligations inside inlined copies of these are dropped
 }
@@ -420,7 +425,11 @@ func (a *Act) val(v ssa.Value) Term {
 	case *ssa.FreeVar:
 		if a.creator != nil {
 			if bv, ok := a.freeVars[v]; ok {
-				return a.creator.ptrVal(bv)
+				saved := a.creator.cur
+				a.creator.cur = nil // resolving a captured variable is not an escaping use
+				t := a.creator.ptrVal(bv)
+				a.creator.cur = saved
+				return t
 			}
 		}
 		// unknown binding: a fresh pointer
@@ -600,7 +609,7 @@ func (a *Act) assumeWF(st *State, t types.Type, x Term, depth int) {
 	}
 	var f Term
 	if isInterface(t) {
-		f = app("idsOK", x, st.alloc)
+		f = And(app("idsOK", x, st.alloc), app("valOK", x))
 	} else {
 		f = tr.eng.sorts.idsOKTerm(t, x, st.alloc, 0)
 	}
